@@ -85,13 +85,16 @@ def dg(s: str) -> bytes:
     return hashlib.blake2b(s.encode(), digest_size=8).digest()
 
 
-def collapse_ws(nodes):
-    """AST with whitespace runs inside string-like values collapsed (what the
-    tokenizer does to s"a  b") — only used to classify the known finding."""
+def collapse_ws(nodes, which=None):
+    """AST with the runs of spaces collapsed inside exactly the values the
+    rendering spelled as s"..." strings (what the tokenizer does to s"a  b")
+    — only used to classify the known finding."""
     def fix(x):
         if isinstance(x, bytes):
+            if which is not None and x not in which:
+                return x
             try:
-                return re.sub(r'\s+', ' ', x.decode()).encode()
+                return re.sub(r' +', ' ', x.decode()).encode()
             except UnicodeDecodeError:
                 return x
         if isinstance(x, list):
@@ -165,8 +168,10 @@ def tolerant_equal(got: bytes, ref: bytes) -> bool:
     return True
 
 
-def judge_source(ctx, src, ref, feats, ast, profile):
+def judge_source(ctx, src, ref, feats, ast, profile, case_collapsed=None):
     functions, parsing, tools, _, _ = env.mods()
+    wsv = {bytes.fromhex(f[9:]) for f in feats if f.startswith('ws-value:')}
+    feats = {f for f in feats if not f.startswith('ws-value:')}
     ctx.evaluated()
     try:
         if len(src) % 7 == 0:
@@ -181,14 +186,19 @@ def judge_source(ctx, src, ref, feats, ast, profile):
     if got == ref or tolerant_equal(got, ref):
         return 'ok'
     key = 'misassembly'
+    collapsed = None
+    if ast is None and case_collapsed is not None and got == case_collapsed:
+        key = 'string-whitespace-collapsed'
+        collapsed = case_collapsed
     if ast is not None:
         try:
+            if 'string-multispace' in feats:
+                collapsed = asm.assemble_program(collapse_ws(ast, wsv))
             if 'string-multispace' in feats and (
-                    only_ws_collapsed(got, ref)
-                    or got == asm.assemble(collapse_ws(ast))):
+                    only_ws_collapsed(got, ref) or got == collapsed):
                 key = 'string-whitespace-collapsed'
             elif 'upper_s_prefix' in feats and \
-                    got == asm.assemble(upper_strings(ast)):
+                    got == asm.assemble_program(upper_strings(ast)):
                 key = 'upper-s-prefix-uppercases-contents'
         except asm.AsmError:
             pass
@@ -206,7 +216,9 @@ def judge_source(ctx, src, ref, feats, ast, profile):
                   f'differ from the documented encoding (features {sorted(feats)})',
                   {'kind': 'src', 'src': src if len(src) < 4000 else
                    src[:4000], 'ref': ref if len(ref) < 2000 else ref[:2000],
-                   'features': sorted(feats)},
+                   'features': sorted(feats),
+                   'collapsed_ref': collapsed if key ==
+                   'string-whitespace-collapsed' else None},
                   ref.hex()[:400], got.hex()[:400])
     return 'bad'
 
@@ -280,6 +292,7 @@ def run_shard(spec, ctx):
                 continue
             seen.add(src)
             res = judge_source(ctx, src, ref, feats, ast, pname)
+            feats = {f for f in feats if not f.startswith('ws-value:')}
             for f in feats:
                 ctx.tab('feature.' + res, f)
             noncanon = feats - {'hoist', 'push_size_symbol',
@@ -334,4 +347,4 @@ def replay(case, ctx):
             pass
         return judge_undefined_macro(ctx, case['src'], case['name'])
     judge_source(ctx, case['src'], case['ref'], set(case.get('features', [])),
-                 None, 'replay')
+                 None, 'replay', case.get('collapsed_ref'))
